@@ -51,8 +51,13 @@ func makeHostNodes(r *hx.R, dir string) ([]hostNode, bool) {
 		// fallback: nodes that exist everywhere
 		nodes = append(nodes, hostNode{"/dev/null", "c", 1, 3}, hostNode{"/dev/zero", "c", 1, 5})
 	}
-	// a regular file (not a device node) is known to the oracle as absent
+	// a regular file (not a device node) is known to the oracle as absent; so are a directory, a socket, a dangling link
+	// and - the implementation uses lstat - a symbolic link to a device node
 	_ = os.WriteFile(filepath.Join(dir, "regular"), []byte("x"), 0o644)
+	_ = os.Mkdir(filepath.Join(dir, "dir"), 0o755)
+	_ = os.Symlink(filepath.Join(dir, "n0"), filepath.Join(dir, "link"))
+	_ = os.Symlink(filepath.Join(dir, "nowhere"), filepath.Join(dir, "dangling"))
+	_ = unix.Mknod(filepath.Join(dir, "sock"), unix.S_IFSOCK|0o600, 0)
 	return nodes, mknodOK
 }
 
@@ -86,17 +91,38 @@ func hostTerm(nodes []hostNode) string {
 	return hx.L(items)
 }
 
-var envNames03 = []string{"A", "B", "FOO", "PATH", "LD_LIBRARY_PATH", "X_Y"}
-var destPool03 = []string{"/a", "/a/b", "/x", "//a/./b/..", "/", "/a/b/c", "/lib/x.so", "/a/", "/x/y/../z", "/usr/lib", "/b", "/c/d/e/f", "relative/p", "/a//b"}
+// names which are prefixes of one another, differ only in case, or contain what looks like another name
+var envNames03 = []string{"A", "B", "FOO", "PATH", "LD_LIBRARY_PATH", "X_Y", "AB", "FOOBAR", "foo", "PATH_X"}
+var destPool03 = []string{"/a", "/a/b", "/x", "//a/./b/..", "/", "/a/b/c", "/lib/x.so", "/a/", "/x/y/../z", "/usr/lib", "/b", "/c/d/e/f", "relative/p", "/a//b",
+	"a", "../up", "/../a", ".", "/a/./././b", "/A", "/a/b/", "x/y/z/..", "/\xc3\xa9/\xc3\xa9"}
+var devPathPool03 = []string{"/dev/a", "/dev/b", "/dev/gpu0", "/dev/null", "/dev/c", "/dev//a", "/dev/a/", "/dev/A", "/dev/gpu1"}
 var hookNames03 = []string{"prestart", "createRuntime", "createContainer", "startContainer", "poststart", "poststop"}
 
 func u32(v uint32) *uint32 { return &v }
+
+func randHook03(r *hx.R, path string) oci.Hook {
+	h := oci.Hook{Path: path}
+	if r.Chance(0.5) {
+		h.Args = []string{filepath.Base(path), "x"}
+	}
+	if r.Chance(0.3) {
+		h.Env = []string{"H=1"}
+	}
+	if r.Chance(0.3) {
+		to := r.Intn(10)
+		h.Timeout = &to
+	}
+	return h
+}
 
 func randOCI(r *hx.R, hosts []hostNode, many bool) *oci.Spec {
 	s := &oci.Spec{Version: "1.0.2"}
 	if r.Chance(0.7) {
 		s.Process = &oci.Process{Cwd: "/", Args: []string{"sh"}}
 		n := r.Intn(4)
+		if r.Chance(0.2) {
+			n = 4 + r.Intn(5)
+		}
 		used := map[string]bool{}
 		for i := 0; i < n; i++ {
 			k := hx.Pick(r, envNames03)
@@ -104,7 +130,7 @@ func randOCI(r *hx.R, hosts []hostNode, many bool) *oci.Spec {
 				continue
 			}
 			used[k] = true
-			s.Process.Env = append(s.Process.Env, k+"="+hx.Pick(r, []string{"1", "", "a=b", "/usr/bin"}))
+			s.Process.Env = append(s.Process.Env, k+"="+hx.Pick(r, []string{"1", "", "a=b", "/usr/bin", "=", "FOO=1", "FOO"}))
 		}
 		if r.Chance(0.3) {
 			// entries nobody validated: no '=', empty, only '='
@@ -115,18 +141,21 @@ func randOCI(r *hx.R, hosts []hostNode, many bool) *oci.Spec {
 			}
 		}
 		if r.Chance(0.5) {
-			s.Process.User.UID = 1000
+			s.Process.User.UID = hx.Pick(r, []uint32{1000, 1000, 1, 4294967295})
 		}
 		if r.Chance(0.5) {
-			s.Process.User.GID = 2000
+			s.Process.User.GID = hx.Pick(r, []uint32{2000, 2000, 1, 4294967295})
 		}
 		if r.Chance(0.4) {
-			s.Process.User.AdditionalGids = []uint32{5, 10}
+			s.Process.User.AdditionalGids = hx.Pick(r, [][]uint32{{5, 10}, {5, 10}, {0}, {20, 5, 20}, {30}, {0, 10, 4294967295}})
 		}
 	}
 	if r.Chance(0.5) {
 		s.Hostname = "host" + fmt.Sprint(r.Intn(100))
 		s.Root = &oci.Root{Path: "rootfs", Readonly: r.Chance(0.5)}
+	}
+	if r.Chance(0.2) {
+		s.Annotations = map[string]string{"io.kubernetes.cri.container-name": "c", "cdi.k8s.io/x": "v.com/c=d"}
 	}
 	nm := r.Intn(4)
 	if many {
@@ -143,6 +172,9 @@ func randOCI(r *hx.R, hosts []hostNode, many bool) *oci.Spec {
 		}
 		used[d] = true
 		m := oci.Mount{Destination: d, Source: "/src" + fmt.Sprint(i), Type: hx.Pick(r, []string{"", "bind", "tmpfs"}), Options: []string{"ro"}}
+		if r.Chance(0.2) {
+			m.Options = hx.Pick(r, [][]string{nil, {}, {"rbind", "rw", "nosuid"}})
+		}
 		if r.Chance(0.1) {
 			m.UIDMappings = []oci.LinuxIDMapping{{ContainerID: 0, HostID: 1000, Size: 1}}
 		}
@@ -156,6 +188,14 @@ func randOCI(r *hx.R, hosts []hostNode, many bool) *oci.Spec {
 			s.Hooks.CreateRuntime = []oci.Hook{{Path: "/bin/cr", Env: []string{"H=1"}}}
 			s.Hooks.Poststop = []oci.Hook{{Path: "/bin/ps"}}
 		}
+	} else if r.Chance(0.5) {
+		// every stage with its own previous hooks (none, one, two), so that a hook landing in a neighbouring list shows
+		s.Hooks = &oci.Hooks{}
+		for i, l := range []*[]oci.Hook{&s.Hooks.Prestart, &s.Hooks.CreateRuntime, &s.Hooks.CreateContainer, &s.Hooks.StartContainer, &s.Hooks.Poststart, &s.Hooks.Poststop} {
+			for j, n := 0, r.Intn(3); j < n; j++ {
+				*l = append(*l, randHook03(r, fmt.Sprintf("/bin/old-%s-%d", hookNames03[i], j)))
+			}
+		}
 	}
 	if r.Chance(0.6) {
 		s.Linux = &oci.Linux{}
@@ -163,14 +203,22 @@ func randOCI(r *hx.R, hosts []hostNode, many bool) *oci.Spec {
 			s.Linux.Namespaces = []oci.LinuxNamespace{{Type: "pid"}, {Type: "mount"}}
 		}
 		nd := r.Intn(3)
+		if r.Chance(0.25) {
+			nd = 3 + r.Intn(4)
+		}
 		usedp := map[string]bool{}
 		for i := 0; i < nd; i++ {
-			p := hx.Pick(r, []string{"/dev/a", "/dev/b", "/dev/null", "/dev/c"})
+			p := hx.Pick(r, []string{"/dev/a", "/dev/b", "/dev/null", "/dev/c", "/dev//a", "/dev/a/", "/dev/A", "/dev/gpu0"})
 			if usedp[p] {
 				continue
 			}
 			usedp[p] = true
-			s.Linux.Devices = append(s.Linux.Devices, oci.LinuxDevice{Path: p, Type: "c", Major: 9, Minor: int64(i), UID: u32(7)})
+			d := oci.LinuxDevice{Path: p, Type: "c", Major: 9, Minor: int64(i), UID: u32(7)}
+			if r.Chance(0.3) {
+				fm := os.FileMode(0o640)
+				d = oci.LinuxDevice{Path: p, Type: hx.Pick(r, []string{"b", "p", "u"}), Major: int64(r.Intn(300)), Minor: int64(r.Intn(300)), FileMode: &fm, GID: u32(0)}
+			}
+			s.Linux.Devices = append(s.Linux.Devices, d)
 		}
 		if r.Chance(0.5) {
 			s.Linux.Resources = &oci.LinuxResources{}
@@ -189,10 +237,21 @@ func randOCI(r *hx.R, hosts []hostNode, many bool) *oci.Spec {
 						oci.LinuxDeviceCgroup{Allow: true, Type: "b", Major: &m1, Access: "rwm"},
 						oci.LinuxDeviceCgroup{Allow: true, Type: "c", Major: &m1, Access: "rw"})
 				}
+				if r.Chance(0.3) && len(hosts) > 0 {
+					// a rule for one of the host nodes is there already (allow or deny): the edits still append theirs
+					h := hx.Pick(r, hosts)
+					hma, hmi := h.Major, h.Minor
+					s.Linux.Resources.Devices = append(s.Linux.Resources.Devices,
+						oci.LinuxDeviceCgroup{Allow: r.Chance(0.5), Type: h.Type, Major: &hma, Minor: &hmi, Access: hx.Pick(r, []string{"rwm", "r", ""})})
+				}
 			}
 		}
 		if r.Chance(0.3) {
 			s.Linux.IntelRdt = &oci.LinuxIntelRdt{ClosID: "old", L3CacheSchema: "L3:0=f", EnableCMT: true}
+			if r.Chance(0.5) {
+				s.Linux.IntelRdt = &oci.LinuxIntelRdt{ClosID: hx.Pick(r, []string{"", "old", "new"}), L3CacheSchema: hx.Pick(r, []string{"", "L3:0=f"}),
+					MemBwSchema: hx.Pick(r, []string{"", "MB:0=20"}), EnableCMT: r.Chance(0.5), EnableMBM: r.Chance(0.5)}
+			}
 		}
 	}
 	return s
@@ -200,49 +259,79 @@ func randOCI(r *hx.R, hosts []hostNode, many bool) *oci.Spec {
 
 func randEdits(r *hx.R, hosts []hostNode, scratchDev string, many bool) *specs.ContainerEdits {
 	e := &specs.ContainerEdits{}
-	for i, n := 0, r.Intn(4); i < n; i++ {
-		e.Env = append(e.Env, hx.Pick(r, envNames03)+"="+hx.Pick(r, []string{"2", "", "x=y", "new"}))
+	ne := r.Intn(4)
+	if r.Chance(0.15) {
+		ne = 4 + r.Intn(6)
 	}
-	for i, n := 0, r.Intn(4); i < n; i++ {
+	for i := 0; i < ne; i++ {
+		e.Env = append(e.Env, hx.Pick(r, envNames03)+"="+hx.Pick(r, []string{"2", "", "x=y", "new", "=", "FOO=3", "A"}))
+	}
+	nn := r.Intn(4)
+	if r.Chance(0.1) {
+		nn = 4 + r.Intn(4)
+	}
+	for i := 0; i < nn; i++ {
 		d := &specs.DeviceNode{}
 		h := hx.Pick(r, hosts)
-		switch r.Intn(6) {
+		switch r.Intn(9) {
 		case 0: // container path = host path, nothing specified
 			d.Path = h.Path
 		case 1: // explicit host path
-			d.Path = hx.Pick(r, []string{"/dev/a", "/dev/b", "/dev/gpu0", "/dev/null", "/dev/c"})
+			d.Path = hx.Pick(r, devPathPool03)
 			d.HostPath = h.Path
 		case 2: // fully specified, no host lookup
-			d.Path = hx.Pick(r, []string{"/dev/a", "/dev/gpu0", "/dev/gpu1"})
+			d.Path = hx.Pick(r, devPathPool03)
 			d.Type = hx.Pick(r, []string{"c", "b", "u"})
 			d.Major, d.Minor = int64(1+r.Intn(200)), int64(r.Intn(200))
+			if r.Chance(0.2) {
+				d.Minor = 0
+			}
 		case 3: // type given, numbers from the host (type may mismatch)
 			d.Path = hx.Pick(r, []string{"/dev/a", "/dev/gpu0"})
 			d.HostPath = h.Path
 			d.Type = hx.Pick(r, []string{h.Type, h.Type, h.Type, "c", "b", "p", "u"})
+			if r.Chance(0.3) {
+				// a minor without a major: the host numbers are taken
+				d.Minor = int64(1 + r.Intn(50))
+			}
 		case 4: // fifo given explicitly: no lookup
 			d.Path = "/dev/fifo"
 			d.Type = "p"
-		default: // missing host node / not a device node
+			if r.Chance(0.3) {
+				d.Major, d.Minor = int64(r.Intn(3)), int64(r.Intn(3))
+			}
+		case 5: // numbers given, type from the host: the numbers stay
+			d.Path = hx.Pick(r, devPathPool03)
+			d.HostPath = h.Path
+			d.Major, d.Minor = int64(1+r.Intn(200)), int64(r.Intn(3))
+		case 6: // no type, no major, but a minor: type and numbers from the host
+			d.Path = hx.Pick(r, devPathPool03)
+			d.HostPath = h.Path
+			d.Minor = int64(1 + r.Intn(50))
+		default: // missing host node / not a device node / a link to a device node (lstat)
 			d.Path = "/dev/gpu0"
-			d.HostPath = filepath.Join(scratchDev, hx.Pick(r, []string{"missing", "regular"}))
+			d.HostPath = filepath.Join(scratchDev, hx.Pick(r, []string{"missing", "regular", "dir", "link", "dangling", "sock"}))
 			if r.Chance(0.5) {
 				d.Type = "c"
 				d.Major = 5
 			}
 		}
-		d.Permissions = hx.Pick(r, []string{"", "", "rw", "r", "rwm", "m"})
+		d.Permissions = hx.Pick(r, []string{"", "", "rw", "r", "rwm", "m", "w", "mrw", "rr", "wm"})
 		if r.Chance(0.3) {
-			d.UID = u32(uint32(r.Intn(3)) * 100)
+			d.UID = u32(hx.Pick(r, []uint32{0, 100, 200, 4294967295}))
 		}
 		if r.Chance(0.3) {
-			d.GID = u32(uint32(r.Intn(3)) * 100)
+			d.GID = u32(hx.Pick(r, []uint32{0, 100, 200, 4294967295}))
 		}
 		if r.Chance(0.3) {
-			fm := os.FileMode(hx.Pick(r, []uint32{0o660, 0o600, 8630}))
+			fm := os.FileMode(hx.Pick(r, []uint32{0o660, 0o600, 8630, 0}))
 			d.FileMode = &fm
 		}
 		e.DeviceNodes = append(e.DeviceNodes, d)
+	}
+	if len(e.DeviceNodes) > 1 && r.Chance(0.15) {
+		// the same node value twice in the list
+		e.DeviceNodes = append(e.DeviceNodes, e.DeviceNodes[r.Intn(len(e.DeviceNodes))])
 	}
 	nm := r.Intn(4)
 	if many && r.Chance(0.7) {
@@ -253,10 +342,22 @@ func randEdits(r *hx.R, hosts []hostNode, scratchDev string, many bool) *specs.C
 		if many && r.Chance(0.5) {
 			d = fmt.Sprintf("%s/m%d", hx.Pick(r, []string{"", "/a", "/a/b", "/x/y/z"}), r.Intn(20))
 		}
-		e.Mounts = append(e.Mounts, &specs.Mount{HostPath: "/host" + fmt.Sprint(i), ContainerPath: d, Options: []string{"rw", "nosuid"}, Type: hx.Pick(r, []string{"", "bind"})})
+		m := &specs.Mount{HostPath: "/host" + fmt.Sprint(i), ContainerPath: d, Options: []string{"rw", "nosuid"}, Type: hx.Pick(r, []string{"", "bind"})}
+		if r.Chance(0.25) {
+			m.Options = hx.Pick(r, [][]string{nil, {}, {"ro"}, {"rbind", "ro", "nodev", "x-opt=1"}})
+			m.Type = hx.Pick(r, []string{"", "bind", "tmpfs", " "})
+		}
+		e.Mounts = append(e.Mounts, m)
 	}
-	for i, n := 0, r.Intn(4); i < n; i++ {
+	nh := r.Intn(4)
+	if r.Chance(0.1) {
+		nh = 4 + r.Intn(5)
+	}
+	for i := 0; i < nh; i++ {
 		h := &specs.Hook{HookName: hx.Pick(r, hookNames03), Path: "/bin/hook" + fmt.Sprint(i), Args: []string{"hook", fmt.Sprint(i)}}
+		if r.Chance(0.2) {
+			h.Args = hx.Pick(r, [][]string{nil, {}, {""}})
+		}
 		if r.Chance(0.3) {
 			h.Env = []string{"HK=" + fmt.Sprint(i)}
 		}
@@ -266,11 +367,25 @@ func randEdits(r *hx.R, hosts []hostNode, scratchDev string, many bool) *specs.C
 		}
 		e.Hooks = append(e.Hooks, h)
 	}
+	if len(e.Hooks) > 0 && r.Chance(0.15) {
+		// a hook equal in every field to an earlier one: both are appended
+		c := *e.Hooks[r.Intn(len(e.Hooks))]
+		e.Hooks = append(e.Hooks, &c)
+	}
 	if r.Chance(0.25) {
 		e.IntelRdt = &specs.IntelRdt{ClosID: "new", MemBwSchema: "MB:0=70", EnableMBM: r.Chance(0.5)}
+		if r.Chance(0.6) {
+			// every member takes both kinds of value, also all of them empty: the whole previous setting is replaced
+			e.IntelRdt = &specs.IntelRdt{ClosID: hx.Pick(r, []string{"", "new", "old"}), L3CacheSchema: hx.Pick(r, []string{"", "L3:0=ff;1=f"}),
+				MemBwSchema: hx.Pick(r, []string{"", "MB:0=70"}), EnableCMT: r.Chance(0.5), EnableMBM: r.Chance(0.5)}
+		}
 	}
-	for i, n := 0, r.Intn(4); i < n; i++ {
-		e.AdditionalGIDs = append(e.AdditionalGIDs, hx.Pick(r, []uint32{0, 5, 10, 20, 30, 20}))
+	ng := r.Intn(4)
+	if r.Chance(0.1) {
+		ng = 4 + r.Intn(6)
+	}
+	for i := 0; i < ng; i++ {
+		e.AdditionalGIDs = append(e.AdditionalGIDs, hx.Pick(r, []uint32{0, 5, 10, 20, 30, 20, 1, 4294967295}))
 	}
 	return e
 }
@@ -303,9 +418,13 @@ func c03Cases(s *hx.Suite, hosts []hostNode, init *oci.Spec, e *specs.ContainerE
 		case 1:
 			d := cdi.Device{Device: &specs.Device{Name: "d", ContainerEdits: *e}}
 			err = d.ApplyEdits(work)
-		default:
+		case 2:
 			sp := cdi.Spec{Spec: &specs.Spec{ContainerEdits: *e}}
 			err = sp.ApplyEdits(work)
+		case 3: // no edits at all: a wrapper around nil (e is the empty edits then)
+			err = (&cdi.ContainerEdits{}).Apply(work)
+		default: // ... and a nil wrapper
+			err = (*cdi.ContainerEdits)(nil).Apply(work)
 		}
 	})
 	outcome := 0
@@ -317,9 +436,9 @@ func c03Cases(s *hx.Suite, hosts []hostNode, init *oci.Spec, e *specs.ContainerE
 	mk := func(mode int, known string) hx.Case {
 		return hx.Case{
 			Term: hx.C("C03", hx.Nat(mode), hostTerm(hosts), editsTerm(e), ociTerm(before), ociTerm(work), hx.Nat(outcome)),
-			Desc: map[string]interface{}{"entry": []string{"ContainerEdits.Apply", "Device.ApplyEdits", "Spec.ApplyEdits"}[entry], "edits": e, "initial": ociJSON(before),
+			Desc: map[string]interface{}{"entry": []string{"ContainerEdits.Apply", "Device.ApplyEdits", "Spec.ApplyEdits", "ContainerEdits{nil}.Apply", "(*ContainerEdits)(nil).Apply"}[entry], "edits": e, "initial": ociJSON(before),
 				"result": ociJSON(work), "outcome": []string{"ok", "error", "PANIC"}[outcome], "host_nodes": hosts, "checked": []string{"all", "all but env", "env only"}[mode]},
-			Nontrivial: len(e.DeviceNodes)+len(e.Mounts)+len(e.Hooks)+len(e.Env)+len(e.AdditionalGIDs) > 0,
+			Nontrivial: len(e.DeviceNodes)+len(e.Mounts)+len(e.Hooks)+len(e.Env)+len(e.AdditionalGIDs) > 0 || e.IntelRdt != nil || entry >= 3,
 			Class:      class,
 			Known:      known,
 		}
@@ -399,6 +518,11 @@ func genC03(r *hx.R, tier string, scratch string) (*hx.Suite, error) {
 		origTerm := editsTerm(e)
 		eJSON, _ := json.Marshal(e)
 		c03Cases(s, hosts, init, e, r.Intn(3), "random")
+		if i%25 == 3 {
+			// no edits: nothing changes, whatever the spec holds (also unsorted mounts stay as they are)
+			c03Cases(s, hosts, init, &specs.ContainerEdits{}, 3+r.Intn(2), "no-edits")
+			c03Cases(s, hosts, init, &specs.ContainerEdits{}, r.Intn(3), "no-edits")
+		}
 		if i%5 == 0 && mknodOK {
 			old := hosts
 			hosts = remakeHostNodes(r, hosts)
